@@ -35,6 +35,8 @@ def high_cc_scenarios(tier):
             spec["irr"] = A.IRR["smt100e70"]
             yield {"kind": "spec", "spec": spec, "label": {"highcc": [name]}}
 
+NONTRIVIAL = ['cc_above_0.96_day', 'ponded_day', 'mulched_day', 'es_limited_day', 'tr_limited_day']
+
 
 def scenarios(tier, seed=0):
     menus = dict(A.WATER_MENUS)
